@@ -161,10 +161,22 @@ def _violations(c, s, items):
             # applied: the activities behind it (here the reload) are reported one behind the other with unexplained gaps
             cls = 'reload-stop-with-two-required-breaks-inside-one-leg-or-stop'
             what = 'AReload %s: two required breaks fall into the span %s of the tour' % (arg, e2e.rb_two_on_one_span(c, s['tours'][arg]),)
+        elif name == 'AJobDuplicated' and pinned_job_served_and_unassigned(c, s, ids.job_name(arg)):
+            # finding C02-F9 (= C01-F19, seen once, not reproducible run by run): a job pinned by a relation is served by its tour
+            # AND listed as unassigned in the same core solution
+            cls = 'job-duplicated:pinned-job-of-a-relation-served-and-listed-unassigned'
+            what = 'AJobDuplicated: job %s is pinned by a relation, served in a tour and listed as unassigned' % ids.job_name(arg)
         elif name.startswith('AJob') or name == 'AForeignJob':
             what = '%s: job %s' % (name, ids.job_name(arg))
         out.append({'class': cls, 'what': what})
     return out
+
+
+def pinned_job_served_and_unassigned(c, s, job):
+    pinned = {j for r in (c['problem']['plan'].get('relations') or []) for j in r.get('jobs', [])}
+    served = [a.get('jobId') for t in s.get('tours', []) for st in t['stops'] for a in st['activities']]
+    un = [u.get('jobId') for u in (s.get('unassigned') or [])]
+    return job in pinned and job in served and job in un
 
 
 def job_less_on_recharge_shift(c, tour):
